@@ -57,6 +57,29 @@ class Report:
             self.bad(rule, construct, where, detail_bad or detail_ok, stmt)
         return cond
 
+    def share(self, model, other_prop: str, rules, as_rule: str, why: str, only=None):
+        """Adopt the obligations of rules `rules` of another property's module under `as_rule`: this property depends on that mechanism
+        (e.g. snapshot isolation of B-tree zones depends on the B-tree's copy-on-write ownership rule).  `only(obligation)` may filter."""
+        import importlib
+        mod = importlib.import_module(f"rules.{other_prop.lower()}")
+        sub = Report(other_prop, "quick")
+        mod.run(model, sub, "quick")
+        n = {"discharged": 0, "violated": 0, "blind": 0, "excepted": 0}
+        for o in sub.obls:
+            if o.rule not in rules or (only is not None and not only(o)):
+                continue
+            n[o.status] = n.get(o.status, 0) + 1
+            if o.status in ("violated", "blind"):
+                self.obls.append(Obligation(as_rule, o.construct, o.where, o.status, f"{o.detail}  [{other_prop} {o.rule}; relied on here because {why}]", f"{o.rule}: {o.stmt}"))
+        for r, (seen, fl) in sub.floors.items():
+            if r.split("-")[0] + "-" + r.split("-")[1] in rules or r in rules:
+                if seen < fl:
+                    self.blind(as_rule, f"<{other_prop} {r} instance floor>", "-", f"only {seen} instances matched, {fl} were confirmed by hand", stmt=r)
+        self.ok(as_rule, f"{other_prop} {'/'.join(sorted(rules))}", "-", f"{n['discharged']} obligations of {other_prop} {', '.join(sorted(rules))} hold ({n['excepted']} reasoned exceptions); relied on because {why}",
+                stmt="shared " + other_prop)
+        if n["discharged"] + n["excepted"] + n["violated"] + n["blind"] == 0:
+            self.blind(as_rule, f"{other_prop} {'/'.join(sorted(rules))}", "-", "the shared rule produced no obligations", stmt="shared-empty " + other_prop)
+
     def floor(self, rule: str, seen: int, floor: int):
         """Instance floor: fewer instances than were confirmed by hand => the rule went blind."""
         self.floors[rule] = (seen, floor)
